@@ -82,7 +82,7 @@ func cmdCheck(args []string) int {
 		return 2
 	}
 	e.Findings = findings
-	timeout := 20 // quick: per-solver budget in seconds; everything claimed discharges well under it on the unchanged tree
+	timeout := 30 // quick: per-solver budget in seconds; everything claimed discharges in under half of it on the unchanged tree
 	if tier == "thorough" {
 		timeout = 60
 	}
